@@ -42,7 +42,8 @@ class BuildDirs:
     #     is also present in _removed_tree. This field is used to optimize the
     #     implementation of _handle_dir_exists, so that it doesn't have to walk
     #     all the way up to the root directory every time.
-    # Lock _lock - The lock guarding access to all of the other attributes.
+    # Lock _lock - The lock guarding access to all of the other attributes,
+    #     apart from make_dirs_lock.
     # set<str> _maybe_removed_dirs - The norm-cased filenames of directories
     #     that might be removed in the virtual state of the file system. To be
     #     sure, we need to check whether the directory is a key in
@@ -76,6 +77,18 @@ class BuildDirs:
             old_cache_files (list<str>): The files created during the
                 previous build, including the cache file.
         """
+        # Public attribute: A lock that a thread must hold from the time it
+        # determines which parent directories of a build file it needs to
+        # create until it has called started_building_file for that file.
+        # Otherwise, another thread could see a directory after we created it
+        # in the real file system, but before we recorded that we created it,
+        # in which case no one would record creating it. For the same reason,
+        # error_building_file acquires this lock: the directories a thread
+        # decided not to create must not be virtually removed before that
+        # thread has reserved them. If both locks are needed, make_dirs_lock
+        # must be acquired before _lock.
+        self.make_dirs_lock = threading.Lock()
+
         self._build_dir_counts = {}
         self._created_dirs_map = {}
         self._error_created_dirs = set()
@@ -161,7 +174,7 @@ class BuildDirs:
         """Handle an exception building the specified file."""
         prev_parent = os.path.normcase(filename)
         parent = os.path.dirname(prev_parent)
-        with self._lock:
+        with self.make_dirs_lock, self._lock:
             while parent != prev_parent:
                 count = self._build_dir_counts[parent] - 1
                 if count > 0:
